@@ -60,6 +60,10 @@ void AutomationMgr::createBinding(int slot, const char *path, bool start_midi_le
         fprintf(stderr, "[Warning] port '%s' is unlearnable\n", path);
         return;
     }
+    if(strlen(path) >= sizeof(slots[slot].automations[0].param_path)) {
+        fprintf(stderr, "[Warning] port '%s' is too long to automate\n", path);
+        return;
+    }
     int ind = -1;
     for(int i=0; i<per_slot; ++i) {
         if(slots[slot].automations[i].used == false) {
@@ -268,6 +272,11 @@ void AutomationMgr::setSlotSubPath(int slot, int ind, const char *path)
     }
     if(meta.find("internal") || meta.find("no learn")) {
         fprintf(stderr, "[Warning] port '%s' is unlearnable\n", path);
+        return;
+    }
+
+    if(strlen(path) >= sizeof(slots[slot].automations[ind].param_path)) {
+        fprintf(stderr, "[Warning] port '%s' is too long to automate\n", path);
         return;
     }
 
